@@ -43,7 +43,8 @@ def compute_all(case):
     fd = date.fromisoformat(case["from"]) if case["from"] else MIN_DATE; td = date.fromisoformat(case["to"]) if case["to"] else MAX_DATE
     country = {"ie": IE, "jp": JPC}.get(case["which"], US)()
     cfg = Configuration(INI, country, from_date=fd, to_date=td, allow_negative_balances=True)
-    return country, cfg, fd, td, {a: compute_tax(cfg, engine(case["sched"]), P.build_asset(cfg, a, rows)) for a, rows in case["assets"].items()}
+    eng = engine(case["sched"])      # one accounting engine for all assets, as in rp2_main
+    return country, cfg, fd, td, {a: compute_tax(cfg, eng, P.build_asset(cfg, a, rows)) for a, rows in case["assets"].items()}
 def build_asset(cfg, a, rows):
     i = TransactionSet(cfg, "IN", a); oo = TransactionSet(cfg, "OUT", a); x = TransactionSet(cfg, "INTRA", a); o2 = lambda v: dec(v) if v is not None else None
     for r in rows:
@@ -335,7 +336,11 @@ def oracle_c20(case, res, guard=True):
             prev = y
     if set(js) != exp: return f"sheets {sorted(js)} vs asset-years {sorted(exp)}"
     return None
-ORACLES = {"C07": oracle_c07, "C13": oracle_c13, "C14": oracle_c14, "C15": oracle_c15, "C19": oracle_c19, "C20": oracle_c20}
+def oracle_c16(case, res, guard=True):
+    if guard and case["which"] == "jp" and not fee_visible(case): return None      # finding F13
+    if res["status"].startswith(("gen-error", "crash")): return f"report generator {case['which']} ends with an internal error ({res['status']}) on a valid input"
+    return None
+ORACLES = {"C16": oracle_c16, "C07": oracle_c07, "C13": oracle_c13, "C14": oracle_c14, "C15": oracle_c15, "C19": oracle_c19, "C20": oracle_c20}
 
 def shrink_candidates(case):
     for a in list(case["assets"]):
